@@ -3,6 +3,7 @@ package main
 import (
 	"flag"
 	"fmt"
+	"go/constant"
 	"golang.org/x/tools/go/ssa"
 	"os"
 	"strings"
@@ -266,5 +267,21 @@ func init() {
 			}
 		}
 		fmt.Println("aborts:", ot.Abort)
+	}
+}
+
+func init() {
+	extraDumps["escapes"] = func(t *Tree, name string) {
+		f := t.Func(pParser, "unquoteChar")
+		for _, c := range []int{'a', 'n', 'x', 'u', 'U', '0', '7', '8', '\\', '"', '\'', 'z', 0, 200} {
+			cfg := &specCfg{Paths: map[string]sval{"s[0]": constv(constant.MakeInt64('\\')), "s[1]": constv(constant.MakeInt64(int64(c)))}, Call: stdErrCall, MaxVisits: 200000}
+			outs, ab := cfg.run(f, []sval{symv("s"), constv(constant.MakeInt64('"')), constv(constant.MakeBool(false))})
+			fmt.Printf("\\%q -> %s %s\n", rune(c), outcomeSet(outs, func(o specOutcome) string {
+				if len(o.Vals) < 4 {
+					return fmt.Sprint(o.Vals, o.Cond)
+				}
+				return fmt.Sprint(o.Vals[0], o.Vals[1], o.Vals[3], o.Cond)
+			}), ab)
+		}
 	}
 }
